@@ -237,7 +237,7 @@ def _dict_of_insert_many(arg, fi):
             defs = local_defs(fi, e.id)
             if len(defs) == 1 and isinstance(defs[0], ast.For):
                 it = defs[0].iter
-                if isinstance(it, ast.Call) and isinstance(it.func, ast.Name) and it.func.id == "chunks" and it.args:
+                if isinstance(it, ast.Call) and norm(it.func).split(".")[-1] in ("chunks", "chunked", "batched") and it.args:
                     e = it.args[0]
                     continue
                 e = it
